@@ -94,8 +94,8 @@ func VerifH_SYS_C16() {
 			// a connection that met no fault, whose peer kept answering and that was not disconnected stays in use
 			faulted := false
 			for _, at := range b.attempts {
-				if at.conn == ci && at.outcome != 'o' {
-					faulted = true
+				if at.conn == ci && (at.outcome == 'e' || at.outcome == 'l' || at.outcome == 'a' || at.outcome == 'd') {
+					faulted = true // an injected fault (a write refused because the client itself had closed the connection is not one)
 				}
 			}
 			if b.accepted[ci] && !faulted && b.silentAt[ci] < 0 && ci != discOn && !b.conns[ci].eof {
